@@ -177,10 +177,25 @@ def suited(alg, kn):
     return False
 
 
+def spec_key_types(alg):
+    """Key type(s) the RFCs require for `alg` (RFC 7518 sections 3.1 / 4.1, RFC 8037, RFC 8812) - written out here, not read
+    from the implementation's table."""
+    if alg.startswith("HS") or alg in ("dir",) or alg.endswith("KW") and alg[0] == "A" or alg.startswith("PBES2"):
+        return ["oct"]
+    if alg.startswith(("RS", "PS")):
+        return ["RSA"]
+    if alg.startswith("ES"):
+        return ["EC"]
+    if alg == "EdDSA":
+        return ["OKP"]
+    if alg.startswith("ECDH"):
+        return ["EC", "OKP"]
+    return []
+
+
 def expected_pick(names, alg, pick):
-    from joserfc.jwk import KeySet
-    kts = KeySet.algorithm_keys.get(alg) or []
-    cands = [i for i, (kn, _) in enumerate(names) if not kts or K._SPECS[kn][0] in kts]
+    kts = spec_key_types(alg)
+    cands = [i for i, (kn, _) in enumerate(names) if K._SPECS[kn][0] in kts]
     return cands[pick % len(cands)] if cands else None
 
 
